@@ -326,7 +326,7 @@ def plan(tier):
         # the costliest units first (run_pool hands units out in list order): S9 pays for filling the cache once per
         # worker, S7 compiles two kernels per execution with the whole code generator traced
         return [
-            ("S9-full-cache-hit-vs-insert", "hot", 1, 3),
+            ("S9-full-cache-hit-vs-insert", "hot", 1, 8),
             ("S7-sparse-dense-cold", "codegen", 1, 24),
             ("S1-same-warm", "hot", 2, 12),
             ("S3w-diff-warm", "hot", 2, 12),
